@@ -71,6 +71,11 @@ func (k Keeper) RequestModuleService(
 
 	requestIDs := k.InitiateRequests(ctx, reqContextID, []sdk.AccAddress{moduleService.Provider}, make(map[string][]string))
 
+	// the only batch of this context has just been issued: let it expire like any other batch
+	// instead of starting another one at the end of the block
+	k.DeleteNewRequestBatch(ctx, reqContextID, ctx.BlockHeight())
+	k.AddRequestBatchExpiration(ctx, reqContextID, ctx.BlockHeight()+requestContext.Timeout)
+
 	result, output := moduleService.ReuquestService(ctx, input)
 	request, _, err := k.AddResponse(ctx, requestIDs[0], moduleService.Provider, result, output)
 	if err != nil {
